@@ -201,6 +201,10 @@ func gen(std, shim, mod string, pkg *types.Package, names []string) string {
 				if n == "ReadDir" {
 					pre = "\tif vsched.FastEmpty(name) {\n\t\treturn nil, nil\n\t}\n"
 				}
+				if n == "OpenFile" {
+					// environment deviation: the harness may make a file creation fail
+					pre = "\tif err := vsched.OpenFault(name, flag); err != nil {\n\t\treturn nil, err\n\t}\n"
+				}
 				fmt.Fprintf(&b, "func %s(%s) %s {\n%s\tvsched.Step(%q, filepath.Base(%s))\n\treturn std.%s(%s)\n}\n\n",
 					n, w[0], osRet[n], pre, "os."+n, w[2], n, w[1])
 				continue
